@@ -1,5 +1,91 @@
-import CachedModel
+/-
+  C05  Weight accounting matches the set of held keys at quiescence.
+
+  "The total weight used equals the sum of the weights of exactly the keys the cache holds: no weight stays
+  charged for a key that is gone and no held key is uncharged, for every history including unawaited writes
+  to the same key."
+
+  Statements are about Layer A (`CachedModel/State.lean`), for every state reachable from `State.init` by any
+  sequence of events with any oracles (`Reach`, Lemmas/Inv.lean).  In Layer A one step of the command worker is
+  one event, so the correspondence holds at EVERY reachable state whose worker has not panicked, not only at
+  quiescence.  All three theorems are projections of the inductive invariant `Inv` (`inv_step`, `inv_reach`).
+
+  The hypothesis `s.worker ≠ .dead` of `C05_held_iff_charged` is needed: a `PutWithTTL` whose `now + ttl`
+  overflows panics in the worker AFTER `maybe_add` charged the weight and BEFORE the store insert
+  (command_executor.rs:201-225 as transcribed by `workerPut`), leaving a charged id without a held key
+  (last `example`).  The sum `used = Σ weights` and the absence of duplicates survive even that.
+-/
+import CachedProofs.Lemmas.Inv
 
 namespace Cached
+
+/-- The running total is exactly the sum of the charged weights, and no id is charged twice. -/
+theorem C05_accounting {cfg : Cfg} {now : Nat} {seeds : List Nat} {s : State} (h : Reach cfg now seeds s) :
+    s.adm.used = sumW s.adm.kw ∧ AMap.NoDup s.adm.kw :=
+  ⟨(inv_reach h).sum, (inv_reach h).kwNoDup⟩
+
+/-- Held keys and charged ids correspond one to one (while the worker lives): every held key is charged under
+    its entry's id, for that very key; every charged id is the id of the entry held for its key. -/
+theorem C05_held_iff_charged {cfg : Cfg} {now : Nat} {seeds : List Nat} {s : State} (h : Reach cfg now seeds s)
+    (hw : s.worker ≠ .dead) :
+    (∀ k e, s.store.get? k = some e → ∃ wk, s.adm.kw.get? e.id = some wk ∧ wk.key = k) ∧
+    (∀ id wk, s.adm.kw.get? id = some wk → ∃ e, s.store.get? wk.key = some e ∧ e.id = id) := by
+  rcases (inv_reach h).held with hd | hh
+  · exact absurd hd hw
+  · exact hh
+
+/-- No id can be charged twice: the ids of the puts still on their way to the worker (queued or parked) are
+    pairwise distinct and none of them is charged yet. -/
+theorem C05_no_duplicate_admission {cfg : Cfg} {now : Nat} {seeds : List Nat} {s : State}
+    (h : Reach cfg now seeds s) :
+    (pendingIds s).Nodup ∧ ∀ id ∈ pendingIds s, s.adm.kw.get? id = none :=
+  ⟨(inv_reach h).pendingFresh.1, fun id hm => ((inv_reach h).pendingFresh.2 id hm).1⟩
+
+/-- Every charged weight is positive and at most the total; the store holds no key twice. -/
+theorem C05_weights {cfg : Cfg} {now : Nat} {seeds : List Nat} {s : State} (h : Reach cfg now seeds s) :
+    AMap.NoDup s.store ∧ ∀ id wk, s.adm.kw.get? id = some wk → 0 < wk.weight ∧ wk.weight ≤ s.adm.used := by
+  have hi := inv_reach h
+  refine ⟨hi.storeNoDup, fun id wk hg => ⟨hi.positive id wk hg, ?_⟩⟩
+  rw [hi.sum]
+  exact weight_le_sumW hi.kwNoDup hi.positive hg
+
+/-! ### non-vacuity -/
+
+/-- Two un-awaited `put_with_weight` of the same key, then two worker steps: the first is accepted, the second is
+    answered `rejected keyAlreadyExists`, `used` is the first weight, one id is charged and it is the held one. -/
+example :
+    (match runEvents (State.init { maxWeight := 10, shards := 2, cmdCap := 4, poolSize := 1, bufSize := 2, counters := 2 }
+              1000000000 [1, 2, 3, 4])
+            [(.putW 0 1 100 5, {}), (.putW 1 1 200 3, {}), (.worker, {}), (.worker, {})] with
+     | .ok s => decide (s.adm.used = 5 ∧ s.acks = [.accepted, .rejected .keyAlreadyExists] ∧
+                        s.adm.kw = [(1, ⟨1, 1, 5⟩)] ∧ s.store = [(1, ⟨100, 1, none, false⟩)] ∧
+                        pendingIds s = [] ∧ s.worker = .running)
+     | _ => false) = true := by decide
+
+/-- Before the worker runs, both puts are pending with distinct fresh ids and nothing is charged. -/
+example :
+    (match runEvents (State.init { maxWeight := 10, shards := 2, cmdCap := 4, poolSize := 1, bufSize := 2, counters := 2 }
+              1000000000 [1, 2, 3, 4])
+            [(.putW 0 1 100 5, {}), (.putW 1 1 200 3, {})] with
+     | .ok s => decide (pendingIds s = [1, 2] ∧ s.adm.used = 0 ∧ s.adm.kw = [])
+     | _ => false) = true := by decide
+
+/-- Put, delete, put again of the same key, all un-awaited: the first id is un-charged, the second is charged. -/
+example :
+    (match runEvents (State.init { maxWeight := 10, shards := 2, cmdCap := 4, poolSize := 1, bufSize := 2, counters := 2 }
+              1000000000 [1, 2, 3, 4])
+            [(.putW 0 1 100 5, {}), (.worker, {}), (.delete 0 1, {}), (.worker, {}), (.putW 0 1 300 4, {}),
+             (.worker, {})] with
+     | .ok s => decide (s.adm.used = 4 ∧ s.adm.kw = [(2, ⟨1, 1, 4⟩)] ∧ s.store = [(1, ⟨300, 2, none, false⟩)])
+     | _ => false) = true := by decide
+
+/-- Why `C05_held_iff_charged` needs a live worker: a `put_with_weight_and_ttl` whose expiry overflows kills the
+    worker between charging the weight and inserting the key; weight 5 stays charged for a key that is not held. -/
+example :
+    (match runEvents (State.init { maxWeight := 10, shards := 2, cmdCap := 4, poolSize := 1, bufSize := 2, counters := 2 }
+              1000000000 [1, 2, 3, 4])
+            [(.putWTtl 0 1 100 5 (9223372036854775807 * 1000000000), {}), (.worker, {})] with
+     | .ok s => decide (s.worker = .dead ∧ s.adm.used = 5 ∧ s.adm.kw = [(1, ⟨1, 1, 5⟩)] ∧ s.store = [])
+     | _ => false) = true := by decide
 
 end Cached
